@@ -227,7 +227,7 @@ def run(ctx):
             pyreq, pywant = [], []
             from mako import ast as mast
             gen_codes = []
-            for _ in range(300 if tier == "quick" else 6000):
+            for _ in range(300 if tier == "quick" else 40000):
                 lead = "".join(rng.choice([" ", "\t", "\n", " \n", "\t\n", "\r\n"]) for _ in range(rng.randint(0, 5)))
                 ok_lines = "".join("v%d = %d\n" % (i, i) for i in range(rng.randint(0, 3)))
                 gen_codes.append((lead + ok_lines + "y = = 2\nz = 3\n", rng.randint(1, 40)))
